@@ -8,6 +8,7 @@ import (
 	"strings"
 
 	"github.com/beevik/etree"
+	saml2 "github.com/russellhaering/gosaml2"
 
 	"verifsim/core"
 	"verifsim/world"
@@ -97,6 +98,7 @@ func c16Run(r *core.Run) {
 	if t.Int(5, "c16.otherapi") == 1 {
 		OtherAPICalls(r, o.Node.SP, 3)
 	}
+	c16SignKnown = false
 	prevRelay := -1 // -1 none yet, 0 absent, 1 present
 	seq := ""
 	for call := 0; call < nCalls && !r.Failed(); call++ {
@@ -236,6 +238,17 @@ var c16Reconf bool
 // c16SignOnAnyway: see c16Run (set per call).
 var c16SignOnAnyway bool
 
+// The application assigns SignAuthnRequests only when it wants another value than the one it assigned last
+// (it remembers what it configured; it does not read the field back).
+var c16SignKnown, c16SignVal bool
+
+func c16SetSigning(sp *saml2.SAMLServiceProvider, v bool) {
+	if !c16SignKnown || c16SignVal != v {
+		sp.SignAuthnRequests = v
+		c16SignKnown, c16SignVal = true, v
+	}
+}
+
 // c16Moved is the endpoint the application switches to (IdP metadata refresh).
 func c16Moved(u string) string {
 	return strings.Replace(u, "https://idp.example", "https://idp-new.example", 1)
@@ -291,12 +304,12 @@ func c16Produce(r *core.Run, o *Out, builder, relay string, signed bool) (page, 
 		switch builder {
 		case "BuildAuthBodyPost":
 			kind, endpoint = "AuthnRequest", o.Cfg.IdPSSOURL
-			sp.SignAuthnRequests = signed // this builder chooses the signed or unsigned document itself
+			c16SetSigning(sp, signed) // this builder chooses the signed or unsigned document itself
 			page, err = sp.BuildAuthBodyPost(relay)
 			return err
 		case "BuildAuthBodyPostFromDocument":
 			kind, endpoint = "AuthnRequest", o.Cfg.IdPSSOURL
-			sp.SignAuthnRequests = signed // BuildAuthRequestDocument signs only when request signing is on
+			c16SetSigning(sp, signed) // BuildAuthRequestDocument signs only when request signing is on
 			if signed {
 				d, err = sp.BuildAuthRequestDocument()
 			} else {
@@ -312,7 +325,7 @@ func c16Produce(r *core.Run, o *Out, builder, relay string, signed bool) (page, 
 			}
 			doc, _ = d.WriteToBytes() // the document as supplied
 			if c16SignOnAnyway {
-				sp.SignAuthnRequests = true
+				c16SetSigning(sp, true)
 			}
 			page, err = sp.BuildAuthBodyPostFromDocument(relay, d)
 		case "BuildLogoutBodyPostFromDocument":
